@@ -37,7 +37,7 @@ m = {
     'hooks': {
         'guard': 'verif',
         'enable': 'no source hooks in /repo: in-package harness files under /verif/harness/ov are injected with `go test -overlay` and built with `-tags verif` from the module /verif/harness (replace => /repo/kernel, /repo/kbuild)',
-        'baseline_off_cmd': 'for m in kernel kbuild; do (cd /repo/$m && GOFLAGS=-mod=mod GOPROXY=off GOSUMDB=off go test -vet=off -count=1 ./...) || exit 1; done',
+        'baseline_off_cmd': 'for m in kernel kbuild; do (cd /repo/$m && GOFLAGS=-mod=mod GOPROXY=off GOSUMDB=off go test -json -vet=off -count=1 -timeout 25m ./...); done',
         'source_commits': [],
         'add_only': True,
     },
